@@ -43,6 +43,7 @@ type Op struct {
 type Hook func(op *Op) error
 
 var ErrInjected = errors.New("vkv: injected storage fault")
+var errCommitDiscarded = errors.New("Trying to commit a discarded txn")
 
 type Store struct {
 	mu     sync.Mutex
@@ -326,14 +327,16 @@ func (t *Txn) commit(visible bool) error {
 		}
 	}
 	t.mu.Lock()
-	if t.done {
-		t.mu.Unlock()
-		return corekv.ErrDiscardedTxn
-	}
+	was := t.done
 	t.done = true
 	t.mu.Unlock()
+	// badger: a commit without pending writes returns nil even on a finished transaction; with
+	// pending writes a finished transaction refuses.
 	if t.readonly || (len(t.writes) == 0 && len(t.dels) == 0) {
 		return nil
+	}
+	if was {
+		return errCommitDiscarded
 	}
 	s := t.s
 	s.mu.Lock()
